@@ -17,6 +17,7 @@ import (
 	"runtime"
 	"sort"
 	"sync"
+	"sync/atomic"
 	"testing"
 	"testing/synctest"
 
@@ -36,6 +37,16 @@ type vfC06Notifiee struct {
 	names  *sync.Map // *Conn -> conn id
 	yield  int
 	onConn func(c network.Conn, id string)
+	// a transient notifiee leaves (StopNotify from another goroutine) when its leaveAt-th callback starts
+	calls   atomic.Int32
+	leaveAt int32
+	leave   func()
+}
+
+func (n *vfC06Notifiee) maybeLeave() {
+	if n.leave != nil && n.calls.Add(1) == n.leaveAt {
+		n.leave()
+	}
 }
 
 func (n *vfC06Notifiee) id(c network.Conn) string {
@@ -49,6 +60,7 @@ func (n *vfC06Notifiee) ListenClose(network.Network, ma.Multiaddr) {}
 func (n *vfC06Notifiee) Connected(_ network.Network, c network.Conn) {
 	id := n.id(c)
 	n.tr.Emit("cs", "n", n.name, "c", id)
+	n.maybeLeave()
 	for i := 0; i < n.yield; i++ {
 		runtime.Gosched()
 	}
@@ -60,6 +72,7 @@ func (n *vfC06Notifiee) Connected(_ network.Network, c network.Conn) {
 func (n *vfC06Notifiee) Disconnected(_ network.Network, c network.Conn) {
 	id := n.id(c)
 	n.tr.Emit("ds", "n", n.name, "c", id)
+	n.maybeLeave()
 	for i := 0; i < n.yield; i++ {
 		runtime.Gosched()
 	}
@@ -118,8 +131,45 @@ func vfC06Scenario(t *testing.T, seed int64, tr *vfh.Trace) {
 		}
 	}
 	n2 := &vfC06Notifiee{name: "n2", tr: tr, names: &names, yield: rnd.Intn(4)}
+	n3 := &vfC06Notifiee{name: "n3", tr: tr, names: &names, yield: rnd.Intn(4)}
+	// transient notifiees: t0 is registered before the others and leaves in the middle of a notification
+	// round (its own callback asks another goroutine to StopNotify it: the call may complete during or after
+	// the round); t1 joins and leaves at arbitrary moments.  Those that stay must not notice.
+	var tWG sync.WaitGroup
+	mkT := func(name string) *vfC06Notifiee {
+		tn := &vfC06Notifiee{name: name, tr: tr, names: &names, yield: rnd.Intn(3), leaveAt: int32(1 + rnd.Intn(4))}
+		tn.leave = func() {
+			tWG.Add(1)
+			go func() {
+				defer tWG.Done()
+				tr.Emit("stopnotify", "n", name)
+				sw.StopNotify(tn)
+			}()
+		}
+		return tn
+	}
+	if rnd.Intn(3) != 0 {
+		sw.Notify(mkT("t0"))
+	}
 	sw.Notify(n1)
+	if rnd.Intn(2) == 0 {
+		sw.Notify(mkT("t2"))
+	}
 	sw.Notify(n2)
+	sw.Notify(n3)
+	if rnd.Intn(2) == 0 {
+		t1 := mkT("t1")
+		tWG.Add(1)
+		go func() {
+			defer tWG.Done()
+			for i, k := 0, rnd.Intn(6); i < k; i++ {
+				runtime.Gosched()
+			}
+			tr.Emit("notify", "n", "t1")
+			sw.Notify(t1)
+		}()
+	}
+	defer tWG.Wait()
 	sw.SetStreamHandler(func(s network.Stream) {
 		tr.Emit("stream", "c", n1.id(s.Conn()))
 		s.Reset()
